@@ -848,3 +848,328 @@ def g9():
 g9.fallback = ("From Coq Require Import List String.\nImport ListNotations.\nOpen Scope string_scope.\n"
                "Definition gen_set_iteration_sites : list (string * string * string * string) := "
                "[(\"?\", \"?\", \"extractor unavailable\", \"?\")].")
+
+
+# ----------------------------------------------------------------------------------------
+# G18: for every function of the package, what its body may do to objects its caller can
+# see -- the action lists of coq/Model/Heap.v (bindings by kind, in-place operations,
+# conditionals).  Loops and try blocks are linearised onto AIf: names (re)bound in a loop
+# body are made unknown before it (a later iteration sees the earlier one's bindings), the
+# body is one optional round, handlers/else/finally are alternatives.
+
+HEAP_FILES = ["grid.py", "padding.py", "grid_ufunc.py", "transform.py", "axis.py", "metrics.py", "comodo.py",
+              "sgrid.py", "metadata_parsers.py", "gridops.py", "regridding.py"]
+MUTATING_METHODS = {"pop", "popitem", "update", "setdefault", "append", "extend", "insert", "remove", "clear",
+                    "sort", "reverse", "add", "discard", "fill", "itemset", "put", "resize", "setflags",
+                    "__setitem__", "__delitem__", "intersection_update", "difference_update",
+                    "symmetric_difference_update"}
+PART_METHODS = {"items", "keys", "values", "get", "pop", "popitem", "setdefault"}
+MODULE_NAMES = {"np", "xr", "itertools", "warnings", "functools", "re", "dask", "dsa", "inspect", "typing",
+                "numbers", "string", "copy", "os", "sys", "math", "operator", "collections"}
+FRESH_BUILTINS = {"dict", "list", "tuple", "set", "frozenset", "sorted", "zip", "enumerate", "range", "len", "str",
+                  "int", "float", "bool", "map", "filter", "reversed", "isinstance", "issubclass", "hasattr", "any",
+                  "all", "sum", "min", "max", "abs", "type", "repr", "print", "callable", "id", "round", "slice",
+                  "ValueError", "TypeError", "KeyError", "NotImplementedError", "RuntimeError", "OrderedDict",
+                  "get_type_hints", "deepcopy"}
+CALLER = "$caller"
+# functions of the package known to build and return a new container (their body is in the inventory too)
+PACKAGE_BUILDERS = {"get_axis_coords"}   # comodo.get_axis_coords: collects names into a new list
+
+
+def _self_attr(e):
+    return isinstance(e, ast.Attribute) and isinstance(e.value, ast.Name) and e.value.id == "self"
+
+
+def _chain_root(e):
+    """(root name, depth) of x, x.a, x[k], x.a[k].b ...; None if not rooted at a name.
+    An attribute of self is a root of its own ("self.attr"): the containers a Grid owns are
+    tracked one by one."""
+    d = 0
+    while isinstance(e, (ast.Attribute, ast.Subscript, ast.Starred)):
+        if _self_attr(e):
+            return "self." + e.attr, d
+        e = e.value
+        d += 1
+    if isinstance(e, ast.Name):
+        return e.id, d
+    return None
+
+
+def _names(e):
+    return sorted({n.id for n in ast.walk(e) if isinstance(n, ast.Name)} - MODULE_NAMES - FRESH_BUILTINS)
+
+
+class HeapBody:
+    def __init__(self):
+        self.tmp = 0
+
+    def classify(self, e):
+        """kind of the object an expression evaluates to: (kind, source name)"""
+        if isinstance(e, ast.Name):
+            return ("alias", e.id)
+        if _self_attr(e):
+            return ("alias", "self." + e.attr)
+        if isinstance(e, (ast.Attribute, ast.Subscript)):
+            r = _chain_root(e)
+            if r and r[0] not in MODULE_NAMES:
+                return ("sub", r[0])
+            return ("unknown", None) if r is None and not isinstance(e.value, ast.Call) else \
+                (("shallow", CALLER) if r else ("unknown", None))
+        if isinstance(e, (ast.Constant, ast.JoinedStr, ast.Lambda)):
+            return ("fresh", None)
+        if isinstance(e, (ast.Dict, ast.List, ast.Set, ast.Tuple, ast.ListComp, ast.SetComp, ast.DictComp,
+                          ast.GeneratorExp, ast.BinOp, ast.UnaryOp, ast.Compare)):
+            ns = _names(e)
+            if not ns:
+                return ("fresh", None)
+            return ("shallow", ns[0] if len(ns) == 1 else CALLER)
+        if isinstance(e, (ast.BoolOp, ast.IfExp, ast.NamedExpr, ast.Await, ast.Yield, ast.YieldFrom, ast.Starred)):
+            return ("unknown", None)      # evaluates to one of its operands
+        if isinstance(e, ast.Call):
+            f = e.func
+            if isinstance(f, ast.Name):
+                if f.id in FRESH_BUILTINS:
+                    ns = _names(ast.Tuple(elts=list(e.args) + [k.value for k in e.keywords], ctx=ast.Load()))
+                    if not ns:
+                        return ("fresh", None)
+                    if f.id == "deepcopy":
+                        return ("fresh", None)
+                    return ("shallow", ns[0] if len(ns) == 1 else CALLER)
+                if f.id == "getattr" and e.args and isinstance(e.args[0], ast.Name):
+                    return ("sub", e.args[0].id)
+                if f.id in PACKAGE_BUILDERS:
+                    return ("shallow", CALLER)
+                return ("unknown", None)          # a function of the package: may hand back its argument
+            if isinstance(f, ast.Attribute):
+                r = _chain_root(f.value)
+                if r is None:
+                    # method of a call result / literal, e.g. "".join(..), f(x).rename(..)
+                    inner = self.classify(f.value)
+                    return ("shallow", inner[1] or CALLER) if inner[0] != "fresh" else ("shallow", CALLER)
+                root, depth = r
+                if root in MODULE_NAMES:
+                    return ("shallow", CALLER)    # np.*, xr.* build new objects from their arguments
+                if root == "self" and depth == 0:
+                    return ("unknown", None)      # a method of the Grid: may return stored state
+                if f.attr in PART_METHODS:
+                    return ("sub", root)
+                if f.attr == "deepcopy":
+                    return ("fresh", None)
+                return ("shallow", root)          # x.copy(), x.rename(..), x.isel(..): new object, shared interior
+            return ("unknown", None)
+        raise Shape(f"expression form {type(e).__name__} at line {getattr(e, 'lineno', '?')}")
+
+    def bind(self, target, kind, src, out):
+        if isinstance(target, ast.Name):
+            x = target.id
+            if kind == "fresh":
+                out.append(("fresh", x))
+            elif kind == "shallow":
+                out.append(("shallow", x, src))
+            elif kind == "alias":
+                out.append(("alias", x, src))
+            elif kind == "sub":
+                out.append(("sub", x, src))
+            else:
+                out.append(("unknown", x))
+        elif isinstance(target, (ast.Tuple, ast.List)):
+            # unpacking: the targets are parts of the value
+            k2, s2 = {"fresh": ("fresh", None), "alias": ("sub", src), "sub": ("sub", src),
+                      "shallow": ("sub", src), "unknown": ("unknown", None)}[kind]
+            for t in target.elts:
+                self.bind(t.value if isinstance(t, ast.Starred) else t, k2, s2, out)
+        elif _self_attr(target):
+            # self.attr = value: the Grid object changes, and the attribute names the value from now on
+            out.append(("mutate", "self"))
+            self.bind(ast.Name(id="self." + target.attr, ctx=ast.Store()), kind, src, out)
+        elif isinstance(target, (ast.Attribute, ast.Subscript)):
+            self.mutate_receiver(target.value, out)
+        else:
+            raise Shape(f"assignment target {type(target).__name__}")
+
+    def mutate_receiver(self, recv, out):
+        r = _chain_root(recv)
+        if r is None:
+            # the receiver is the result of a call or another expression: an object we know nothing about
+            self.tmp += 1
+            t = f"$t{self.tmp}"
+            k, s = self.classify(recv)
+            self.bind(ast.Name(id=t, ctx=ast.Store()), k, s, out)
+            out.append(("mutate", t))
+        elif r[0] in MODULE_NAMES:
+            raise Shape(f"in-place operation on module {r[0]}")
+        elif r[1] == 0:
+            out.append(("mutate", r[0]))
+        else:
+            out.append(("mutate_deep", r[0]))
+
+    def expr_effects(self, e, out):
+        """in-place operations hidden inside an expression: x.pop(..), x.update(..), f(.., inplace=True)"""
+        for n in ast.walk(e):
+            if isinstance(n, ast.Call) and isinstance(n.func, ast.Attribute):
+                inplace = any(k.arg == "inplace" and not (isinstance(k.value, ast.Constant) and k.value.value is False)
+                              for k in n.keywords)
+                if n.func.attr in MUTATING_METHODS or inplace:
+                    r = _chain_root(n.func.value)
+                    if r and r[0] in MODULE_NAMES:
+                        continue
+                    self.mutate_receiver(n.func.value, out)
+            if isinstance(n, (ast.NamedExpr,)):
+                raise Shape("walrus")
+
+    def assigned(self, stmts):
+        names = set()
+        for s in stmts:
+            aug = {id(n.target) for n in ast.walk(s) if isinstance(n, ast.AugAssign)}
+            for n in ast.walk(s):
+                # x += y keeps x's object or derives a new one from it: not a rebinding to something else
+                if isinstance(n, ast.Name) and isinstance(n.ctx, ast.Store) and id(n) not in aug:
+                    names.add(n.id)
+                if isinstance(n, (ast.FunctionDef, ast.ClassDef)):
+                    names.add(n.name)
+        return sorted(names)
+
+    def block(self, stmts):
+        out = []
+        for s in stmts:
+            self.stmt(s, out)
+        return out
+
+    def stmt(self, s, out):
+        if isinstance(s, (ast.FunctionDef, ast.AsyncFunctionDef, ast.ClassDef)):
+            out.append(("fresh", s.name))          # bodies are inventoried on their own
+        elif isinstance(s, ast.Assign):
+            self.expr_effects(s.value, out)
+            k, src = self.classify(s.value)
+            for t in s.targets:
+                self.bind(t, k, src, out)
+        elif isinstance(s, ast.AnnAssign):
+            if s.value is not None:
+                self.expr_effects(s.value, out)
+                k, src = self.classify(s.value)
+                self.bind(s.target, k, src, out)
+        elif isinstance(s, ast.AugAssign):
+            self.expr_effects(s.value, out)
+            if isinstance(s.target, ast.Name):
+                out.append(("mutate", s.target.id))        # x += y may act in place
+            else:
+                self.mutate_receiver(s.target.value, out)
+        elif isinstance(s, ast.Delete):
+            for t in s.targets:
+                if isinstance(t, ast.Name):
+                    out.append(("unknown", t.id))
+                else:
+                    self.mutate_receiver(t.value, out)
+        elif isinstance(s, (ast.Expr, ast.Return, ast.Raise, ast.Assert)):
+            for v in [getattr(s, a, None) for a in ("value", "exc", "cause", "test", "msg")]:
+                if v is not None:
+                    self.expr_effects(v, out)
+        elif isinstance(s, ast.If):
+            self.expr_effects(s.test, out)
+            out.append(("if", self.block(s.body), self.block(s.orelse)))
+        elif isinstance(s, (ast.For, ast.AsyncFor, ast.While)):
+            body = list(s.body)
+            pre = []
+            if isinstance(s, ast.While):
+                self.expr_effects(s.test, out)
+            else:
+                self.expr_effects(s.iter, out)
+                k, src = self.classify(s.iter)
+                k2, s2 = {"fresh": ("fresh", None), "alias": ("sub", src), "sub": ("sub", src),
+                          "shallow": ("sub", src), "unknown": ("unknown", None)}[k]
+                self.bind(s.target, k2, s2, pre)
+            names = self.assigned(body + ([ast.Expr(value=s.target)] if not isinstance(s, ast.While) else []))
+            for x in names:
+                out.append(("unknown", x))
+            out.append(("if", pre + self.block(body), []))
+            if s.orelse:
+                out.append(("if", self.block(s.orelse), []))
+        elif isinstance(s, ast.Try):
+            # any prefix of the body may have run when a handler starts: the body is optional,
+            # names it binds are unknown to the handlers
+            names = self.assigned(s.body)
+            out.append(("if", self.block(s.body), []))
+            for h in s.handlers:
+                pre = [("unknown", x) for x in names] + ([("fresh", h.name)] if h.name else [])
+                out.append(("if", pre + self.block(h.body), []))
+            if s.orelse:
+                out.append(("if", self.block(s.orelse), []))
+            if s.finalbody:
+                out.extend([("unknown", x) for x in names] + self.block(s.finalbody))
+        elif isinstance(s, (ast.With, ast.AsyncWith)):
+            for it in s.items:
+                self.expr_effects(it.context_expr, out)
+                if it.optional_vars is not None:
+                    self.bind(it.optional_vars, "unknown", None, out)
+            out.extend(self.block(s.body))
+        elif isinstance(s, (ast.Pass, ast.Break, ast.Continue, ast.Import, ast.ImportFrom, ast.Global, ast.Nonlocal)):
+            pass
+        else:
+            raise Shape(f"statement form {type(s).__name__} at line {s.lineno}")
+
+
+def _coq_actions(acts):
+    def one(a):
+        t = a[0]
+        if t == "fresh":
+            return f"ABindFresh {cstr(a[1])}"
+        if t in ("shallow", "alias", "sub"):
+            c = {"shallow": "ABindShallow", "alias": "ABindAlias", "sub": "ABindSub"}[t]
+            return f"{c} {cstr(a[1])} {cstr(a[2] or CALLER)}"
+        if t == "unknown":
+            return f"ABindUnknown {cstr(a[1])}"
+        if t == "mutate":
+            return f"AMutate {cstr(a[1])}"
+        if t == "mutate_deep":
+            return f"AMutateDeep {cstr(a[1])}"
+        if t == "if":
+            return f"AIf {_coq_actions(a[1])} {_coq_actions(a[2])}"
+        raise Shape(f"action {t}")
+    return clist(one(a) for a in acts)
+
+
+def _has_mutation(acts):
+    return any(a[0] in ("mutate", "mutate_deep") or (a[0] == "if" and (_has_mutation(a[1]) or _has_mutation(a[2])))
+               for a in acts)
+
+
+@extractor("G18")
+def g18():
+    rows = []
+    nfun = 0
+    for fname in HEAP_FILES:
+        tree = parse(fname)
+
+        def visit(node, prefix):
+            nonlocal nfun
+            for ch in ast.iter_child_nodes(node):
+                if isinstance(ch, (ast.FunctionDef, ast.AsyncFunctionDef)):
+                    q = prefix + ch.name
+                    nfun += 1
+                    hb = HeapBody()
+                    acts = hb.block(ch.body)
+                    a = ch.args
+                    fresh = [a.kwarg.arg] if a.kwarg else []      # the **kwargs dictionary is built for the call
+                    if a.vararg:
+                        fresh.append(a.vararg.arg)
+                    if _has_mutation(acts):
+                        rows.append(f"({cstr(fname)}, {cstr(q)}, {clist(cstr(x) for x in fresh)}, {_coq_actions(acts)})")
+                    visit(ch, q + ".")
+                elif isinstance(ch, ast.ClassDef):
+                    visit(ch, prefix + ch.name + ".")
+                else:
+                    visit(ch, prefix)
+        visit(tree, "")
+    out = ["From Coq Require Import List String.", "From XV Require Import Model.Heap.", "Import ListNotations.",
+           "Open Scope string_scope.",
+           f"(* {nfun} function bodies read; listed: those containing an in-place operation.",
+           "   (file, function, names fresh on entry, body) *)",
+           "Definition gen_bodies : list (string * string * list string * list action) := " + clist(rows) + ".",
+           f"Definition gen_bodies_read : nat := {nfun}."]
+    return "\n".join(out)
+
+
+g18.fallback = ("From Coq Require Import List String.\nFrom XV Require Import Model.Heap.\nImport ListNotations.\n"
+                "Open Scope string_scope.\n"
+                "Definition gen_bodies : list (string * string * list string * list action) := "
+                "[(\"?\", \"extractor unavailable\", [], [AMutate \"?\"])].\nDefinition gen_bodies_read : nat := 0.")
